@@ -99,25 +99,25 @@ struct SipHash {
 
     switch (kLeftOver) {
       case 7:
-        b |= static_cast<std::uint64_t>(buffer[kEndOffset + 6]) << 48;
+        b |= ReadByte(buffer, kEndOffset + 6) << 48;
         NOP_FALLTHROUGH;
       case 6:
-        b |= static_cast<std::uint64_t>(buffer[kEndOffset + 5]) << 40;
+        b |= ReadByte(buffer, kEndOffset + 5) << 40;
         NOP_FALLTHROUGH;
       case 5:
-        b |= static_cast<std::uint64_t>(buffer[kEndOffset + 4]) << 32;
+        b |= ReadByte(buffer, kEndOffset + 4) << 32;
         NOP_FALLTHROUGH;
       case 4:
-        b |= static_cast<std::uint64_t>(buffer[kEndOffset + 3]) << 24;
+        b |= ReadByte(buffer, kEndOffset + 3) << 24;
         NOP_FALLTHROUGH;
       case 3:
-        b |= static_cast<std::uint64_t>(buffer[kEndOffset + 2]) << 16;
+        b |= ReadByte(buffer, kEndOffset + 2) << 16;
         NOP_FALLTHROUGH;
       case 2:
-        b |= static_cast<std::uint64_t>(buffer[kEndOffset + 1]) << 8;
+        b |= ReadByte(buffer, kEndOffset + 1) << 8;
         NOP_FALLTHROUGH;
       case 1:
-        b |= static_cast<std::uint64_t>(buffer[kEndOffset + 0]) << 0;
+        b |= ReadByte(buffer, kEndOffset + 0) << 0;
         NOP_FALLTHROUGH;
       case 0:
         break;
@@ -139,17 +139,26 @@ struct SipHash {
   }
 
  private:
+  // Reads one byte as an unsigned value. The buffer's value type may be a
+  // signed char (string literals), which must not be sign extended: the hash is
+  // defined over the bytes and must not depend on the signedness of char.
+  template <typename BufferType>
+  static constexpr std::uint64_t ReadByte(const BufferType& buffer,
+                                          const std::size_t offset) {
+    return static_cast<std::uint8_t>(buffer[offset]);
+  }
+
   template <typename BufferType>
   static constexpr std::uint64_t ReadBlock(const BufferType buffer,
                                            const std::size_t offset) {
-    const std::uint64_t v0 = buffer[offset + 0];
-    const std::uint64_t v1 = buffer[offset + 1];
-    const std::uint64_t v2 = buffer[offset + 2];
-    const std::uint64_t v3 = buffer[offset + 3];
-    const std::uint64_t v4 = buffer[offset + 4];
-    const std::uint64_t v5 = buffer[offset + 5];
-    const std::uint64_t v6 = buffer[offset + 6];
-    const std::uint64_t v7 = buffer[offset + 7];
+    const std::uint64_t v0 = ReadByte(buffer, offset + 0);
+    const std::uint64_t v1 = ReadByte(buffer, offset + 1);
+    const std::uint64_t v2 = ReadByte(buffer, offset + 2);
+    const std::uint64_t v3 = ReadByte(buffer, offset + 3);
+    const std::uint64_t v4 = ReadByte(buffer, offset + 4);
+    const std::uint64_t v5 = ReadByte(buffer, offset + 5);
+    const std::uint64_t v6 = ReadByte(buffer, offset + 6);
+    const std::uint64_t v7 = ReadByte(buffer, offset + 7);
 
     return ((v7 << 56) | (v6 << 48) | (v5 << 40) | (v4 << 32) | (v3 << 24) |
             (v2 << 16) | (v1 << 8) | (v0 << 0));
